@@ -48,6 +48,9 @@ C11_Pure ==
   /\ Check("repeated runs with two unreadable variables report different errors (the caller's map order decides)",
            ("repeats_bad" \in DOMAIN T) => \A i \in 1..Len(T.repeats_bad) : Same(T.repeats_bad[i], T.repeats_bad[1]))
   /\ Check("a feature flag changed a result it does not gate", ~T.flags.gated => Same(T.flags.on, T.flags.off))
+  /\ Check("a flag name that gates nothing changed a result (next to the gating flag, or alone; repeated with fresh flag sets)",
+           ("onplus" \in DOMAIN T.flags) => ((\A i \in 1..Len(T.flags.onplus) : Same(T.flags.onplus[i], T.flags.on))
+                                               /\ (\A j \in 1..Len(T.flags.offplus) : Same(T.flags.offplus[j], T.flags.off))))
   /\ Check("interleaved runs interfere: a result differs from the run executed alone",
            \A i \in 1..Len(T.gated) : \A j \in 1..Len(T.gated[i].outs) : Same(T.gated[i].outs[j], T.seq))
   /\ Check("interleaved runs modified their shared inputs", \A i \in 1..Len(T.gated) : T.gated[i].inputsUnchanged)
